@@ -272,7 +272,7 @@ def tlc_hist_to_history(hid, hist, opt=None, fullfirst=False):
     h = dict(id=hid, opt=opt or dict(shards=0, watchwithoutclass=True), steps=[])
     for bi, b in enumerate(hist):
         ops = base_ops() if bi == 0 else []
-        for e in b:
+        for e in b["ops"]:
             if e["k"] == "ing":
                 if e["v"] == "none":
                     ops.append(op_del("ing", "%s/i%d" % (NS, e["n"])))
@@ -283,8 +283,28 @@ def tlc_hist_to_history(hid, hist, opt=None, fullfirst=False):
             elif e["k"] == "sec":
                 v = {"absent": "absent", "bad": "bad", "v1": "crt:" + e["n"], "v2": "crt:" + e["n"] + "v2"}[e["v"]]
                 ops.append(op_sec(e["n"], v))
-        h["steps"].append(dict(ops=ops, fullfirst=fullfirst))
+        st = dict(ops=ops, fullfirst=fullfirst)
+        if b.get("fault", "none") != "none":
+            st["faults"] = [FAULTS[b["fault"]]]
+            st["faultname"] = b["fault"]
+        h["steps"].append(st)
     return h
+
+
+# failure points of an update (C12): name -> harness fault
+FAULTS = {
+    "httpmap": dict(point="file:_front_http_host*.map"),
+    "httpsmap": dict(point="file:_front_https_host*.map"),
+    "crtlist": dict(point="file:_front_bind_crt.list"),
+    "maincfg": dict(point="file:haproxy.cfg"),
+    "shardcfg": dict(point="file:haproxy5-backend*.cfg"),
+    "backmap": dict(point="file:_back_*.map"),
+    "cmd0": dict(point="cmd:0", kind="nosuch"),
+    "cmd1": dict(point="cmd:1", kind="drop"),
+    "cmd2": dict(point="cmd:2", kind="garbage"),
+    "reload": dict(point="reload", times=1),
+    "reload2": dict(point="reload", times=2),
+}
 
 
 if __name__ == "__main__":
